@@ -46,6 +46,9 @@ type lpStep struct {
 }
 type lpCase struct {
 	Opts    coOpts
+	// ColdStart: the sidecars have not been given the coordinator's configuration yet (as after a roll-out of the whole
+	// replica); the first cycle pushes it, and everything the coordinator remembers of that push is then in play
+	ColdStart bool
 	Targets []lpTarget
 	Shards  int
 	Init    [][]scTarget // initial assignment per shard (posted directly), may be empty
@@ -320,7 +323,9 @@ func loopRun(in interface{}) (string, interface{}, map[string]int) {
 	st := map[string]int{"steps": len(c.Steps), "targets": len(c.Targets)}
 	// initial placement: posted to the sidecars directly; every shard starts with the coordinator's configuration
 	for i, s := range w.shards {
-		_, _ = w.serve(s, "POST", "/api/v1/status/config/", mustJSON(shard.UpdateConfigRequest{RawContent: lpRaw}))
+		if !c.ColdStart { // otherwise the sidecars begin with the default configuration and get the real one from the coordinator
+			_, _ = w.serve(s, "POST", "/api/v1/status/config/", mustJSON(shard.UpdateConfigRequest{RawContent: lpRaw}))
+		}
 		if i < len(c.Init) && len(c.Init[i]) > 0 {
 			byJob := map[int][]scTarget{}
 			for _, t := range c.Init[i] {
@@ -565,6 +570,7 @@ func loopGen(r *rand.Rand, idx int, thorough bool) interface{} {
 		c.Steps = append(c.Steps, lpStep{Kind: "cycle"}, lpStep{Kind: "scrapeall", Times: 3}, lpStep{Kind: "tick", Dt: 400})
 	}
 	c.Calm = len(c.Steps) - before
+	c.ColdStart = idx%2 == 1
 	return c
 }
 
